@@ -778,6 +778,19 @@ def gen_cases(ctx):
          dict(p="zz/b", k="f", perm=0o644, uid=0, gid=0, mtime=5, data=base64.b64encode(b"r" * 10).decode())]
     cases.append(Case("m0", m, "dir", ["-o", "-k"], dict(uid=0, gid=0, mtime=0, mode=0o755), mount="mnt"))
     cases.append(Case("m1", m, "dir", ["-k"], dict(uid=0, gid=0, mtime=0, mode=0o755), mount="mnt"))
+    # directories whose number of entries sits on the growth steps of the name array of the native iterator
+    # (raw entry counts 16, 32, 64, 128, ... including "." and ".."), with a multiply-linked file whose names
+    # are the first and the last of the directory: whichever is enumerated first must not matter
+    counts = [14, 30, 62, 126] if ctx.tier == "quick" else [6, 13, 14, 15, 29, 30, 31, 61, 62, 63, 125, 126, 127, 254, 510]
+    for cnt in counts:
+        c = [dict(p="pool", k="d", perm=0o755, uid=0, gid=0, mtime=5),
+             dict(p="pool/f%03d" % 0, k="f", perm=0o644, uid=0, gid=0, mtime=5, data=base64.b64encode(b"L" * 700).decode())]
+        for j in range(1, cnt - 1):
+            c.append(dict(p="pool/f%03d" % j, k="f", perm=0o644, uid=0, gid=0, mtime=5,
+                          data=base64.b64encode(bytes([j & 255]) * (j % 5)).decode()))
+        c.append(dict(p="pool/f%03d" % (cnt - 1), k="h", of="pool/f000"))
+        c.append(dict(p="z", k="f", perm=0o600, uid=0, gid=0, mtime=5, data=base64.b64encode(b"z").decode()))
+        cases.append(Case("c%d" % cnt, c, "dir", ["-k"], dict(uid=0, gid=0, mtime=0, mode=0o755)))
     for i in range(n_plain):
         spec = gen_tree(rnd, nmax=rnd.choice([6, 14, 30]), link_rate=rnd.choice([0.0, 0.1]))
         opts, d = gen_dir_opts(rnd)
